@@ -113,6 +113,34 @@ def _mats(draw, rows, R, kinds=("int", "normal")):
 
 
 @st.composite
+def _extreme_groups(draw, nm, R, dt):
+    """[[matrix index, column, factor], ...]: several extremely rescaled columns per matrix (at most one factor per column)"""
+    out, seen = [], set()
+    for _ in range(draw(st.integers(1, 2))):
+        j = draw(st.integers(0, nm - 1))
+        f = draw(st.sampled_from(TINY[dt]))
+        cols = draw(st.lists(st.integers(0, R - 1), min_size=1, max_size=R, unique=True))
+        if draw(st.booleans()):
+            cols = list(range(R))          # every column of the matrix (the product of the norms under/overflows: class N6)
+        for r in sorted(cols):
+            if (j, r) not in seen:
+                seen.add((j, r))
+                out.append([j, r, f])
+    return out
+
+
+def _apply_extreme(s, groups, jj, common):
+    """multiply the scaling row s (of matrix jj) by the extreme factors; with a common row (stacked CorrIndex) every group acts on
+    that row, still at most one factor per column"""
+    done = set()
+    for j, r, f in groups or ():
+        if (0 if common else j) == jj and r not in done:
+            done.add(r)
+            s[r] *= f
+    return s
+
+
+@st.composite
 def _pair_case(draw, max_R=6, relation=("independent", "equivalent", "noisy"), max_mats=3):
     R = draw(st.integers(1, max_R))
     nm = draw(st.integers(1, max_mats))
@@ -142,9 +170,9 @@ def _pair_case(draw, max_R=6, relation=("independent", "equivalent", "noisy"), m
             c["nseed"] = draw(gen.seeds)
             c["nlevel"] = draw(st.sampled_from([1e-3, 0.1, 1.0]))
         elif draw(st.integers(0, 2)) < 2:
-            # "non-zero scalings": one component of one matrix rescaled by an extreme but harmless factor (no under/overflow of
-            # the squared entries in the working precision; one column only, see notes: prod-of-norms underflow)
-            c["tiny"] = [draw(st.integers(0, nm - 1)), draw(st.integers(0, R - 1)), draw(st.sampled_from(TINY[c["dt2"]]))]
+            # "non-zero scalings": components rescaled by extreme but harmless factors (no under/overflow of the squared entries in
+            # the working precision); one or two groups = (matrix, factor, non-empty set of columns, possibly all of them)
+            c["tiny"] = draw(_extreme_groups(nm, R, c["dt2"]))
     c["swap"] = draw(st.booleans())
     return c
 
@@ -210,8 +238,7 @@ def _build_pair(case, positive_scal=False, common_scal=False):
             s = np.array(case["scal"][jj], dtype=float)
             if positive_scal:
                 s = np.abs(s)
-            if tiny is not None and (0 if common_scal else tiny[0]) == jj:
-                s[tiny[1]] *= tiny[2]
+            s = _apply_extreme(s, tiny, jj, common_scal)
             x = (m * s)[:, p]
             if case["rel"] == "noisy":
                 rs = np.random.RandomState((case["nseed"] + j) % (2 ** 32))
@@ -226,7 +253,7 @@ def _build_pair(case, positive_scal=False, common_scal=False):
 def _labels(case, extra=()):
     return [f"R={case['R']}", f"nmat={len(case['rows'])}", f"abs={case['absolute']}", f"bare={case['bare']}", f"rel={case['rel']}",
             f"rows_lt_R={any(n < case['R'] for n in case['rows'])}", f"ties={bool(case['edits'])}",
-            "dtypes=%s/%s" % _dts(case), f"tiny={case['tiny'][2]:g}" if case.get("tiny") else "tiny=no"] + list(extra)
+            "dtypes=%s/%s" % _dts(case), "extreme_cols=%s" % (min(len(case.get("tiny") or case.get("qtiny") or ()), 4) or "no")] + list(extra)
 
 
 def _nontrivial(case):
@@ -321,17 +348,14 @@ def _meta_case(draw):
     c["q"] = list(draw(st.permutations(list(range(R)))))
     c["qscal"] = [[k / 4 for k in draw(st.lists(st.integers(1, 8), min_size=R, max_size=R))] for _ in range(nm)]
     c["qsign"] = [[draw(st.sampled_from([-1, 1])) for _ in range(R)] for _ in range(nm)]
-    if draw(st.integers(0, 2)) < 2:     # one component rescaled by an extreme factor
-        c["qtiny"] = [draw(st.integers(0, nm - 1)), draw(st.integers(0, R - 1)), draw(st.sampled_from(TINY[_fdt(_dts(c)[1])]))]   # dtype of the second argument after `swap`
+    if draw(st.integers(0, 2)) < 2:     # components rescaled by extreme factors (dtype of the second argument after `swap`)
+        c["qtiny"] = draw(_extreme_groups(nm, R, _fdt(_dts(c)[1])))
     return c
 
 
 def _qscal(case, j, signed):
     s = np.array(case["qscal"][j], dtype=float) * (np.array(case["qsign"][j]) if signed else 1.0)
-    qt = case.get("qtiny")
-    if qt is not None and qt[0] == j:
-        s[qt[1]] *= qt[2]
-    return s
+    return _apply_extreme(s, case.get("qtiny"), j, bool(case.get("_qcommon")))
 
 
 def o_congruence_invariance(case):
@@ -456,9 +480,8 @@ def o_ci_invariance(case):
     vt, tol = _vt(case), _ci_tol(case)
     q = case["q"]
     d1, d2 = _dts(case)
-    qt = case.get("qtiny")
-    if m == "stacked" and qt is not None:      # common scaling: the extreme factor sits in the common row
-        case = dict(case, qtiny=[0, qt[1], qt[2]])
+    if m == "stacked":      # common scaling: the extreme factors sit in the common row
+        case = dict(case, _qcommon=True)
     f2b = [_quant((x * _qscal(case, 0 if m == "stacked" else j, True))[:, q], _fdt(d2)) for j, x in enumerate(f2)]
     sb = _call_ci(case, f1, f2b, (d1, _fdt(d2)))
     check(_ci_same(s, sb, tol, vt), "corrindex/invariant-under-permutation+scaling", lambda: f"{s!r} vs {sb!r} (method {m}, q={q})")
